@@ -299,6 +299,16 @@ def build(model, db):
             a = Req(int); b = Req(str); PK(a, b)
             nxt = Opt('Loop', reverse='prev'); prev = Set('Loop', reverse='nxt')              # a composite self reference
         return None
+    if model == 'key_sql_types':
+        class Account(db.Entity):
+            id = PK(int, sql_type='BIGINT'); tags = Set('Tag'); owner = Opt('Person')
+        class Tag(db.Entity):
+            code = PK(str, sql_type='CHAR(12)'); accounts = Set(Account)
+        class Course(db.Entity):
+            dept = Req(str, sql_type='VARCHAR(8)'); no = Req(int, sql_type='SMALLINT'); PK(dept, no); students = Set('Person', table='enrolment', reverse='courses'); fans = Set('Person', reverse='best')
+        class Person(db.Entity):
+            ssn = PK(str, sql_type='CHAR(11)'); friends = Set('Person', reverse='friends'); courses = Set(Course, reverse='students'); accounts = Set(Account); best = Opt(Course, reverse='fans')
+        return None
     if model == 'long_entity_names':
         L1 = type(db.Entity)(E27, (db.Entity,), {'x': Opt(int), 'ref': Opt(E31)})
         L2 = type(db.Entity)(E31, (db.Entity,), {'backrefs': Set(E27)})
@@ -306,7 +316,7 @@ def build(model, db):
     raise KeyError(model)
 
 
-SQLITE_MODELS = ['attributes', 'relationships', 'inheritance', 'custom_names', 'long_names_distinct', 'long_entity_names', 'unique_key_parts', 'on_delete_actions']
+SQLITE_MODELS = ['attributes', 'relationships', 'inheritance', 'custom_names', 'long_names_distinct', 'long_entity_names', 'unique_key_parts', 'on_delete_actions', 'key_sql_types']
 DDL_MODELS = ['attributes', 'relationships', 'inheritance', 'custom_names', 'long_names', 'long_names_distinct', 'qualified', 'explicit_pk_no_sequences', 'long_entity_names', 'reference_cycles', 'unique_key_parts']
 MAY_REJECT = ('long_names', 'long_names_distinct')          # names that collide after truncation to the dialect limit: refusing the mapping is the stated behaviour
 
@@ -331,6 +341,7 @@ def _sl_case(cfg, values):
             cat = {}
             for t in tabs:
                 cols = {r[1]: (r[3], r[5]) for r in q('PRAGMA table_info("%s")' % t)}
+                st.setdefault('types', {})[t] = {r[1]: r[2].upper() for r in q('PRAGMA table_info("%s")' % t)}
                 idx = []
                 for r in q('PRAGMA index_list("%s")' % t):
                     idx.append((r[1], bool(r[2]), tuple(c[2] for c in q('PRAGMA index_info("%s")' % r[1])), r[3] if len(r) > 3 else ''))
@@ -382,6 +393,10 @@ def _sl_spec(cfg, i, path):
         if t not in cat or sorted(cat[t]['cols']) != sorted(cols): return False
     for key, act in st['on_delete_expected'].items():                                          # the ON DELETE action of every foreign key follows the declaration
         if st['on_delete_found'].get(key) != act: return False
+    for t in cat:                                                                              # a foreign key column has the declared type of the key column it refers to (link tables included)
+        for cols, parent, pcols in cat[t]['fks']:
+            for c, pc in zip(cols, pcols):
+                if st['types'][t].get(c) != st['types'].get(parent, {}).get(pc): return False
     if ex is None: return True
     if set(ex['tables']) != set(cat): return False
     for t, cols in ex['tables'].items():
